@@ -323,8 +323,10 @@ func concurrent(t *testing.T, r *ev.Run, ks *keyring) {
 			if !present[i] && (n > 0 || e.callsOf("payloads", it.ref) > 0) {
 				r.Violation("C06/concurrent/refused-notified/"+tmpl, fmt.Sprintf("a subscriber was called for %s which is not in the DAG", it.name), w())
 			}
-			if e.callsOf("payloads", it.ref) > 1 {
-				r.Violation("C06/concurrent/notified-more-than-once/"+tmpl, fmt.Sprintf("subscriber payloads was called %d times for %s", e.callsOf("payloads", it.ref), it.name), w())
+			for _, sub := range []string{"payloads", "held", "heldp"} {
+				if c := e.callsOf(sub, it.ref); c > 1 {
+					r.Violation("C06/concurrent/notified-more-than-once/"+tmpl, fmt.Sprintf("subscriber %s was called %d times for %s", sub, c, it.name), w())
+				}
 			}
 			if present[i] && !it.base {
 				added++
